@@ -335,14 +335,271 @@ pub fn write_tie(
 	};
 	t.op(&format!("c04b phys get {}", hex(&key)), &stored);
 	// the joint invariant on the model's column after ITS write = classification of the real one
-	match parity_db::verif::btree_dump(db, 0) {
-		Ok(d2) =>
+	let mut dump = match parity_db::verif::btree_dump(db, 0) {
+		Ok(d2) => {
 			if let Some(line) = classify(&after, &d2, ctr, &mut problems) {
 				t.op("c04b phys inv", &line);
+			}
+			d2
+		},
+		Err(e) => {
+			problems.push(format!("write tie: tree dump failed: {:?}", e));
+			return problems
+		},
+	};
+	if !problems.is_empty() {
+		return problems
+	}
+	// ---- second transaction: Set of an ABSENT key whose leaf is not full (no split)
+	let mut state: BTreeMap<Vec<u8>, Vec<u8>> = committed.clone();
+	state.insert(key.clone(), value.clone());
+	let absent: Vec<&Vec<u8>> = cfg
+		.pool
+		.iter()
+		.filter(|k| !state.contains_key(*k) && k.len() * 2 < MAX_LINE / 4)
+		.filter(|k| matches!(locate(&dump, k), Some((n, false, true)) if n < 8))
+		.collect();
+	if absent.is_empty() {
+		ctr.inc("phys.ins.no_candidate");
+	} else {
+		let k2 = absent[rng.below(absent.len() as u64) as usize].clone();
+		let len2 = match rng.below(4) {
+			0 => rng.below(20) as usize,
+			1 => 100 + rng.below(300) as usize,
+			2 => 5000 + rng.below(3000) as usize,
+			_ => rng.below(64) as usize,
+		};
+		let comp2 = rng.chance(1, 2);
+		let v2: Vec<u8> =
+			(0..len2).map(|i| if comp2 { (i / 5 % 7) as u8 ^ 0x20 } else { (rng.next() >> 13) as u8 }).collect();
+		step(db.commit(vec![(0u8, k2.clone(), Some(v2.clone()))]), "commit (insert)", &mut problems);
+		step(db.process_commits().map(|_| ()), "process_commits", &mut problems);
+		step(db.flush_logs().map(|_| ()), "flush_logs", &mut problems);
+		for _ in 0..2 {
+			step(db.enact_logs().map(|_| ()), "enact_logs", &mut problems);
+			step(db.clean_logs().map(|_| ()), "clean_logs", &mut problems);
+		}
+		if !problems.is_empty() {
+			return problems
+		}
+		let after2 = match read_tables(db) {
+			Ok(x) => x,
+			Err(e) => {
+				problems.push(e);
+				return problems
 			},
-		Err(e) => problems.push(format!("write tie: tree dump failed: {:?}", e)),
+		};
+		let compressed2 = if matches!(cfg.compression, CompressionType::NoCompression) {
+			"none".to_string()
+		} else {
+			hex(&parity_db::verif::compress(cfg.compression, &v2))
+		};
+		ctr.inc("phys.ins.lines");
+		t.op(&format!("c04b phys ins {} {} {} {}", hex(&k2), hex(&v2), threshold, compressed2), "ok");
+		t.op("c04b phys digest", &digest(&after2));
+		ctr.add("phys.ins.slots_compared", after2.iter().map(|t| t.raw.len() as u64).sum());
+		let mut s2 = v2.clone();
+		let mut f2 = 0;
+		if compressed2 != "none" && v2.len() > threshold as usize {
+			let c = parity_db::verif::compress(cfg.compression, &v2);
+			if c.len() < v2.len() {
+				s2 = c;
+				f2 = 1;
+			}
+		}
+		t.op(&format!("c04b phys get {}", hex(&k2)), &format!("some {} {} {}", s2.len(), f2, fnv_bytes(&s2)));
+		match parity_db::verif::btree_dump(db, 0) {
+			Ok(d3) => {
+				if node_moved(&dump, &d3) {
+					ctr.inc("phys.ins.node_moved");
+				}
+				if d3.root != dump.root {
+					ctr.inc("phys.ins.root_moved");
+				}
+				if let Some(line) = classify(&after2, &d3, ctr, &mut problems) {
+					t.op("c04b phys inv", &line);
+				}
+				dump = d3;
+			},
+			Err(e) => problems.push(format!("write tie: tree dump failed: {:?}", e)),
+		}
+		state.insert(k2, v2);
+	}
+	if !problems.is_empty() {
+		return problems
+	}
+	// ---- third transaction: removal of a key held by a leaf that keeps ORDER/2 separators (no rebalance)
+	let removable: Vec<&Vec<u8>> = state
+		.keys()
+		.filter(|k| k.len() * 2 < MAX_LINE / 4)
+		.filter(|k| matches!(locate(&dump, k), Some((n, true, true)) if n > 4))
+		.collect();
+	if removable.is_empty() {
+		ctr.inc("phys.del.no_candidate");
+	} else {
+		let k3 = removable[rng.below(removable.len() as u64) as usize].clone();
+		step(db.commit(vec![(0u8, k3.clone(), None)]), "commit (remove)", &mut problems);
+		step(db.process_commits().map(|_| ()), "process_commits", &mut problems);
+		step(db.flush_logs().map(|_| ()), "flush_logs", &mut problems);
+		for _ in 0..2 {
+			step(db.enact_logs().map(|_| ()), "enact_logs", &mut problems);
+			step(db.clean_logs().map(|_| ()), "clean_logs", &mut problems);
+		}
+		if !problems.is_empty() {
+			return problems
+		}
+		let after3 = match read_tables(db) {
+			Ok(x) => x,
+			Err(e) => {
+				problems.push(e);
+				return problems
+			},
+		};
+		ctr.inc("phys.del.lines");
+		t.op(&format!("c04b phys del {} {}", hex(&k3), threshold), "ok");
+		t.op("c04b phys digest", &digest(&after3));
+		ctr.add("phys.del.slots_compared", after3.iter().map(|t| t.raw.len() as u64).sum());
+		t.op(&format!("c04b phys get {}", hex(&k3)), "none");
+		match parity_db::verif::btree_dump(db, 0) {
+			Ok(d4) => {
+				if node_moved(&dump, &d4) {
+					ctr.inc("phys.del.node_moved");
+				}
+				if let Some(line) = classify(&after3, &d4, ctr, &mut problems) {
+					t.op("c04b phys inv", &line);
+				}
+			},
+			Err(e) => problems.push(format!("write tie: tree dump failed: {:?}", e)),
+		}
+		state.remove(&k3);
+	}
+	if !problems.is_empty() {
+		return problems
+	}
+	// ---- fourth transaction: Set of an absent key whose leaf is FULL and whose parent has room (one leaf split)
+	let dump4 = match parity_db::verif::btree_dump(db, 0) {
+		Ok(d) => d,
+		Err(e) => {
+			problems.push(format!("write tie: tree dump failed: {:?}", e));
+			return problems
+		},
+	};
+	let splitting: Vec<&Vec<u8>> = cfg
+		.pool
+		.iter()
+		.filter(|k| !state.contains_key(*k) && k.len() * 2 < MAX_LINE / 4)
+		.filter(|k| matches!(locate2(&dump4, k), Some((8, false, true, Some(p))) if p < 8))
+		.collect();
+	if splitting.is_empty() {
+		ctr.inc("phys.split.no_candidate");
+	} else {
+		let k4 = splitting[rng.below(splitting.len() as u64) as usize].clone();
+		let len4 = rng.below(200) as usize;
+		let v4: Vec<u8> = (0..len4).map(|_| (rng.next() >> 17) as u8).collect();
+		step(db.commit(vec![(0u8, k4.clone(), Some(v4.clone()))]), "commit (split)", &mut problems);
+		step(db.process_commits().map(|_| ()), "process_commits", &mut problems);
+		step(db.flush_logs().map(|_| ()), "flush_logs", &mut problems);
+		for _ in 0..2 {
+			step(db.enact_logs().map(|_| ()), "enact_logs", &mut problems);
+			step(db.clean_logs().map(|_| ()), "clean_logs", &mut problems);
+		}
+		if !problems.is_empty() {
+			return problems
+		}
+		let after4 = match read_tables(db) {
+			Ok(x) => x,
+			Err(e) => {
+				problems.push(e);
+				return problems
+			},
+		};
+		let compressed4 = if matches!(cfg.compression, CompressionType::NoCompression) {
+			"none".to_string()
+		} else {
+			hex(&parity_db::verif::compress(cfg.compression, &v4))
+		};
+		ctr.inc("phys.split.lines");
+		t.op(&format!("c04b phys split {} {} {} {}", hex(&k4), hex(&v4), threshold, compressed4), "ok");
+		t.op("c04b phys digest", &digest(&after4));
+		ctr.add("phys.split.slots_compared", after4.iter().map(|t| t.raw.len() as u64).sum());
+		let mut s4 = v4.clone();
+		let mut f4 = 0;
+		if compressed4 != "none" && v4.len() > threshold as usize {
+			let c = parity_db::verif::compress(cfg.compression, &v4);
+			if c.len() < v4.len() {
+				s4 = c;
+				f4 = 1;
+			}
+		}
+		t.op(&format!("c04b phys get {}", hex(&k4)), &format!("some {} {} {}", s4.len(), f4, fnv_bytes(&s4)));
+		match parity_db::verif::btree_dump(db, 0) {
+			Ok(d5) =>
+				if let Some(line) = classify(&after4, &d5, ctr, &mut problems) {
+					t.op("c04b phys inv", &line);
+				},
+			Err(e) => problems.push(format!("write tie: tree dump failed: {:?}", e)),
+		}
 	}
 	problems
+}
+
+/// where the descent for `key` ends in the dumped tree: (separators of that node, key held by it,
+/// the node is at leaf level)
+fn locate(d: &TreeDump, key: &[u8]) -> Option<(usize, bool, bool)> {
+	locate2(d, key).map(|(a, b, c, _)| (a, b, c))
+}
+
+/// as `locate`, plus the number of separators of the parent of that node
+fn locate2(d: &TreeDump, key: &[u8]) -> Option<(usize, bool, bool, Option<usize>)> {
+	let mut n = d.root_node.as_ref()?;
+	let mut level = 0u32;
+	let mut parent: Option<usize> = None;
+	loop {
+		let mut i = 0;
+		let mut found = false;
+		for (k, _) in &n.separators {
+			match key.cmp(&k[..]) {
+				std::cmp::Ordering::Greater => i += 1,
+				std::cmp::Ordering::Equal => {
+					found = true;
+					break
+				},
+				std::cmp::Ordering::Less => break,
+			}
+		}
+		if found || level == d.depth {
+			return Some((n.separators.len(), found, level == d.depth, parent))
+		}
+		match n.children.get(i) {
+			Some((_, Some(c))) => {
+				parent = Some(n.separators.len());
+				n = c;
+				level += 1;
+			},
+			_ => return None,
+		}
+	}
+}
+
+fn addresses(n: &NodeDump, out: &mut Vec<u64>) {
+	out.push(n.address);
+	for (_, c) in &n.children {
+		if let Some(c) = c {
+			addresses(c, out);
+		}
+	}
+}
+
+/// some node address of the old tree is gone (a node entry changed tier)
+fn node_moved(a: &TreeDump, b: &TreeDump) -> bool {
+	let (mut x, mut y) = (vec![], vec![]);
+	if let Some(r) = &a.root_node {
+		addresses(r, &mut x);
+	}
+	if let Some(r) = &b.root_node {
+		addresses(r, &mut y);
+	}
+	x.iter().any(|p| !y.contains(p))
 }
 
 /// Oracle: every slot of every table is exactly one of header part / part of one reachable node /
